@@ -53,7 +53,7 @@ RULE = (
     "(tcp, udp, both) x same/different port x tcp/udp are enumerated in both tiers; random cases add random 127/8 and "
     "mapped addresses, random case patterns and multi-listener sets; distinct = (host spelling class, listen config, listener "
     "transport, connection transport, port relation); non-trivial = same port and same transport (the host spelling decides). "
-    "Runtime histories (about 2% of the random cases in quick): 2-4 real listeners (9 mode templates x 127.0.0.1/::1/all/localhost, "
+    "Runtime histories (about 1% of the random cases in quick): 2-4 real listeners (9 mode templates x 127.0.0.1/::1/all/localhost, "
     "harness-chosen free ports), 2-6 update steps (add/remove/restart) each under a vetting policy (every tick, alternate, on "
     "servers.changed, none), sweep of 14+ spellings x tcp/udp per running and per stopped listener after every step; distinct = "
     "(listener mode/host kinds, policies, steps, restart); non-trivial = a listener was started while server_connect ran concurrently"
@@ -409,7 +409,7 @@ def run(ctx):
 
 
 def _run(ctx, loop):
-    p_hist = 0.02 if ctx.tier == "quick" else 0.003
+    p_hist = 0.012 if ctx.tier == "quick" else 0.003
     lkeys = list(LISTEN)
     items = list(itertools.product(range(len(ALL_SPELLINGS)), lkeys, LISTENER_MODES, (True, False), ("tcp", "udp")))
     n_enum = len(items)
